@@ -12,7 +12,7 @@ import random
 import numpy as np
 import scipy.signal
 
-from vkit import tlc, tracecheck
+from vkit import apalache, tlc, tracecheck
 
 
 def _rle(amp, w):
@@ -140,6 +140,15 @@ def run(ctx):
         sc = {k: v for k, v in st.items() if not k.startswith("_")}
         # a model-level counterexample is a finding about the code only once replayed on it
         replay_model_cex(ctx, r.invariant_violated, sc)
+    # 1b. unbounded parameters: inductive invariant of the same generator, discharged symbolically (Apalache):
+    #     Init => IndInv ; IndInv /\ Next => IndInv' /\ (InRange /\ Cover /\ Overlap), for ALL ns, w, ov
+    ob = [("Init", "IndInv", 0), ("IndInit", "IndInvAndSafety", 1)]
+    done = [apalache.check("apalache/WindowsInd.tla", i, v, n) for i, v, n in ob]
+    if not all(done):
+        raise tlc.TLCError(f"inductive invariant of spec/apalache/WindowsInd.tla not established: {done}")
+    ctx.cov["inductive_invariant"] = {"tool": "apalache-mc 0.58", "obligations": len(ob), "discharged": sum(done),
+                                      "statement": "Init => IndInv; IndInv /\\ Next => IndInv' /\\ InRange /\\ Cover /\\ Overlap "
+                                                   "for unbounded ns, w, ov (count / valid / splice clauses are bounded-model only)"}
     # 2. code -> spec
     tr = triples(ctx)
     random.Random(ctx.seed).shuffle(tr)     # balance the batches
